@@ -103,6 +103,16 @@ def run_case(ctx, case):
         if tuple(want) != joined[0]:
             rec.violation("joined curve is not on the original knot vector with minimal junction multiplicities", case,
                           observed=ser(joined[0]), expected=ser(want))
+    else:
+        # rational curves: numerator and denominator of the pieces are restrictions of those of the original, so every copy a
+        # cut added can be removed again — no junction knot may end with more copies than the original had, no other knot changes
+        ju = list(joined[0])
+        for x in sorted(set(ju) | set(U)):
+            have, had = ju.count(x), list(U).count(x)
+            if (x in cuts[1:-1] and have > had) or (x not in cuts[1:-1] and have != had):
+                rec.violation("joined pieces of a rational curve are not on the original knot vector (junction knots may only lose copies)", case,
+                              knot=str(x), observed=ser(ju), original=ser(U))
+                break
     mj = drv.call("curve.join", *curve_args(*pieces[0]), *curve_args(*pieces[1])) if len(pieces) >= 2 else None
     if mj is not None:
         r2 = impl(lambda: make_curve(*pieces[0]) | make_curve(*pieces[1]))
